@@ -9,6 +9,7 @@ import vlib
 import c03gen as G
 
 IMPORTS = ['Gen.Consts', 'Gen.LinkGuards', 'Model.SvgBuild', 'Model.Links', 'Model.LinksChk']
+NEST_IMPORTS = ['Gen.LinkGuards', 'Model.LinksNest']
 
 
 def hbits(*parts):
@@ -98,11 +99,13 @@ def run(ctx):
         "tools/gen_links.py: syntactic recognition of the loop guards in clippath.rs, mask.rs, filter.rs, paint_server.rs, marker.rs, svgtree/mod.rs, svgtree/parse.rs",
         "roxmltree, svgtypes (IRI / FuncIRI / paint / filter-list grammars), text and image conversion, geometry: unmodelled; exercised by the e2e oracle only",
         "the native stack depth and the wall-clock time of the real parser are observed (worker signal / timeout), not proved",
+        "tools/gen_links.py: recognition of the `sub_opt` literal of image.rs load_sub_svg and of the loop headers of find_recursive_link / find_recursive_pattern",
+        "text/flatten.rs parses SVG glyphs supplied by font files with default options (not reachable from the document alone): unmodelled",
     ]
     ctx.assumptions = [
         "model documents: elements with a tag class, an id, a units flag and reference-valued attributes; attribute values are references or non-references",
         "shapes have a non-empty bounding box; pattern / mask / filter / marker rectangles are valid (the generator emits such documents)",
-        "duplicate ids, CSS, `inherit`, switch, nested svg, text and images are outside the modelled fragment",
+        "duplicate ids, CSS, `inherit`, switch, text and raster images are outside the modelled fragment; nested SVG documents are modelled as the list of their external references (Model/LinksNest.v)",
     ]
     broken = ctx.translate()
     res = ctx.coq_props(extra_targets=['Model/LinksChk.v'])
@@ -142,10 +145,35 @@ def run(ctx):
     for i in range(nrand):
         d = G.random_doc(rng, 2 + rng.below(11))
         docs.append(("random graph %d" % i, d, G.to_svg(d)))
+    # duplicate ids (extension round 4): a random graph in which one element takes the id of another one - `use` resolves an
+    # id to the FIRST element carrying it (id_map), every other reference to the LAST svgtree element (doc.links)
+    ndup = 150 if quick else 2000
+    for i in range(ndup):
+        d = G.random_doc(rng, 3 + rng.below(9))
+        els = [x for x in d.walk() if x.id is not None and x.tag != 'svg' and not x.id.startswith('vf_')]
+        if len(els) >= 2:
+            a, b = rng.choice(els), rng.choice(els)
+            if a is not b:
+                a.id = b.id
+        docs.append(("random graph dup-id %d" % i, d, G.to_svg(d)))
+    # filter lists (unmodelled grammar: e2e only): cyclic documents whose filter references are written as lists
+    nfl = 0
+    for label, d in enum:
+        if 'filter' not in label and 'feimage' not in label:
+            continue
+        h = hbits(label, ctx.seed)
+        if h % (12 if quick else 3):
+            continue
+        t = G.to_svg(d)
+        form = (r'filter="url(#\1) url(#\1)"', r'filter="blur(0.5) url(#\1)"', r'filter="url(#\1) grayscale(0.5)"')[(h >> 8) % 3]
+        t2 = re.sub(r'filter="url\(#([^)]*)\)"', form, t)
+        if t2 != t:
+            docs.append(("filter-list " + label, 'file-with-witness', t2))
+            nfl += 1
     # hand-written use shapes (the class boundary): caught by the guards / not caught
     for label, d in use_family():
         docs.append((label, d, G.to_svg(d)))
-    ctx.log("documents: %d files, %d enumerated cycles, %d random graphs" % (n_files, len(enum), nrand))
+    ctx.log("documents: %d files, %d enumerated cycles, %d random graphs, %d with duplicate ids, %d filter-list variants" % (n_files, len(enum), nrand, ndup, nfl))
 
     items = ["-\t" + t for _, _, t in docs]
     # ------------------------------------------------------------------ S: e2e oracle
@@ -235,7 +263,7 @@ def run(ctx):
     model_ok = True
     if usable:
         chunks = [list(range(k, min(len(usable), k + 1500))) for k in range(0, len(usable), 1500)]
-        bad_pre, bad_nm, bad_impl, mverd = [], [], [], {}
+        bad_pre, bad_nm, bad_impl, bad_frame, mverd = [], [], [], [], {}
         def eval_chunk(args):
             ci, ch = args
             body = ("From Coq Require Import ZArith NArith List.\nImport ListNotations.\n"
@@ -244,6 +272,7 @@ def run(ctx):
                     "Eval vm_compute in (bad_idx chk_prepass pre).\n"
                     "Eval vm_compute in (bad_idx chk_names nms).\n"
                     "Eval vm_compute in (bad_idx chk_impl_prepass pre).\n"
+                    "Eval vm_compute in (bad_idx chk_impl_frame pre).\n"
                     "Eval vm_compute in (map (fun p => model_verdict %d%%N (fst p)) pre).\n"
                     % (";\n".join(pre_items[j] for j in ch), ";\n".join(nm_items[j] for j in ch), G.WITNESS_N))
             return ctx.coq_eval('k_c03_%d' % ci, body, IMPORTS, timeout=1200)
@@ -252,14 +281,16 @@ def run(ctx):
             evals = list(ex.map(eval_chunk, list(enumerate(chunks))))
         for (ci, ch), (rc, out) in zip(enumerate(chunks), evals):
             lists = re.findall(r"=\s*\[(.*?)\]\s*:\s*list", out, re.S) if rc == 0 else []
-            if len(lists) != 4:
+            if len(lists) != 5:
                 model_ok = False
                 ctx.log("model evaluation failed:\n" + out[-1500:])
                 break
             pl = [int(re.sub(r"%\w+", "", x).strip()) for x in lists[0].split(';') if x.strip()]
             nl = [int(re.sub(r"%\w+", "", x).strip()) for x in lists[1].split(';') if x.strip()]
             il = [int(re.sub(r"%\w+", "", x).strip()) for x in lists[2].split(';') if x.strip()]
-            vl = [int(re.sub(r"%\w+", "", x).strip()) for x in lists[3].split(';') if x.strip()]
+            fl = [int(re.sub(r"%\w+", "", x).strip()) for x in lists[3].split(';') if x.strip()]
+            vl = [int(re.sub(r"%\w+", "", x).strip()) for x in lists[4].split(';') if x.strip()]
+            bad_frame += [usable[ch[b]] for b in fl]
             bad_impl += [usable[ch[b]] for b in il]
             bad_pre += [usable[ch[b]] for b in pl]
             bad_nm += [usable[ch[b]] for b in nl]
@@ -267,12 +298,18 @@ def run(ctx):
                 mverd[usable[j]] = v
         if model_ok:
             ctx.cov['correspondence_cases'] = 2 * len(usable)
+            ctx.cov['frame_cases'] = len(usable)
             for i in bad_pre[:3]:
                 ctx.violation("svgtree pre-pass: model and implementation disagree on the neutralised references (%s)" % docs[i][0],
                               dict(op='c03-svgtree', label=docs[i][0], doc=docs[i][2],
                                    impl=json.loads(touts[sel.index(i)]), cmd="printf '0\\t-\\t<doc>\\n' | rvh c03-svgtree"))
             for i in bad_impl[:3]:
                 ctx.violation("svgtree pre-pass leaves a reference cycle of length <= 2 in the tree it returns (%s)" % docs[i][0],
+                              dict(op='c03-svgtree', label=docs[i][0], doc=docs[i][2],
+                                   impl=json.loads(touts[sel.index(i)]), cmd="printf '0\\t-\\t<doc>\\n' | rvh c03-svgtree"))
+            for i in bad_frame[:3]:
+                ctx.violation("svgtree pre-pass removes a reference that is not on a cycle of length <= 2, or adds one "
+                              "(C03_prepass_frame; %s)" % docs[i][0],
                               dict(op='c03-svgtree', label=docs[i][0], doc=docs[i][2],
                                    impl=json.loads(touts[sel.index(i)]), cmd="printf '0\\t-\\t<doc>\\n' | rvh c03-svgtree"))
             for i in bad_nm[:3]:
@@ -290,6 +327,10 @@ def run(ctx):
     else:
         model_ok = False
 
+    # ------------------------------------------------------------------ nested documents (image / feImage -> load_sub_svg)
+    nest_ok = nested_documents(ctx, binp, 30 if quick else 400)
+    model_ok = model_ok and nest_ok
+
     # ------------------------------------------------------------------ broken proof / tie: nothing found above -> say so
     if not proof_ok:
         if not ctx.violations:
@@ -304,6 +345,78 @@ def run(ctx):
                        "length 4) over the 11 link kinds x link on the element / on a child, entered directly or through a non-cyclic element, units flag "
                        "varied; random graphs of 2..12 elements with 1-2 references each, mixed kinds, dangling targets; hand-written use shapes at the class "
                        "boundary; the F01/F02 witnesses and the corpus recursive-* files.  A case is distinct by document text.")
+
+
+def nested_documents(ctx, binp, nrand):
+    """K + S for Model/LinksNest.v: file systems with self-including files, data: documents, feImage; the trees the real
+    parser builds are compared with `load` inside Coq (chk_nest) and bounded guard-free (chk_nest_bound)."""
+    import shutil
+    base = os.path.join(ctx.workdir, 'nest')
+    shutil.rmtree(base, ignore_errors=True)
+    fam = G.nest_family(ctx.rng, nrand)
+    items = []
+    for n, (label, files, top, fe) in enumerate(fam):
+        dirp = os.path.join(base, str(n))
+        os.makedirs(dirp, exist_ok=True)
+        for i, f in enumerate(files):
+            if f is not None:
+                with open(G.nest_path(dirp, i), 'w') as fh:
+                    fh.write(G.nest_svg(f, dirp))
+        with open(os.path.join(dirp, 'top.svg'), 'w') as fh:
+            fh.write(G.nest_svg(top, dirp, top=True, fe_last=fe))
+        items.append("-\t@" + os.path.join(dirp, 'top.svg'))
+    outs = ctx.rvh_batch(binp, 'c03-nest', items, per_item_timeout=4, chunk=6)
+    terms, idx = [], []
+    n_bad = 0
+    for n, ((label, files, top, fe), o) in enumerate(zip(fam, outs)):
+        if n_bad >= 3:
+            break
+        ctx.note_case('nest:' + items[n] + repr((files, top, fe)), nontrivial=bool(top))
+        try:
+            r = json.loads(o)
+        except (TypeError, ValueError):
+            r = {'crash': 'unparsable output'}
+        replay = dict(op='c03-nest', label=label, doc=items[n].split('\t', 1)[1], files=files, top=top, result=r,
+                      cmd="printf '0\\t-\\t@<dir>/top.svg\\n' | rvh c03-nest")
+        if 'crash' in r or 'panic' in r:
+            what = "stack overflow / abort" if str(r.get('crash', '')).startswith('signal') else ("hang" if r.get('crash') == 'timeout' else "panic")
+            ctx.violation("%s while loading nested documents (C03_nested_documents_bounded; %s): %s" % (what, label, str(r)[:160]), replay)
+            n_bad += 1
+            continue
+        if 'error' in r:
+            ctx.violation("the whole document is lost (%s) for nested documents: %s" % (r['error'], label), replay)
+            n_bad += 1
+            continue
+        if not any(x.get('id') == 'vf_witness' and x.get('bbox') == [70.0, 70.0, 20.0, 20.0] for x in r.get('nodes', [])) or not r.get('rendered'):
+            ctx.violation("independent shape lost / not rendered next to nested documents (%s)" % label, replay)
+            continue
+        lt = G.nest_parse(r.get('nest', ''))
+        terms.append("(%s, %s)" % (G.nest_coq(files, top), "Some (%s)" % lt if lt else "None"))
+        idx.append((n, replay))
+    ctx.cov['nested_document_cases'] = len(fam)
+    if not terms:
+        return True
+    body = ("From Coq Require Import List.\nImport ListNotations.\n"
+            "Fixpoint bad_from {A} (f : A -> bool) (l : list A) (i : nat) : list nat :=\n"
+            "  match l with [] => [] | x :: r => if f x then bad_from f r (S i) else i :: bad_from f r (S i) end.\n"
+            "Definition cs : list (list (option idoc) * idoc * option ltree) := [\n%s\n].\n"
+            "Eval vm_compute in (bad_from chk_nest cs 0).\n"
+            "Eval vm_compute in (bad_from chk_nest_bound cs 0).\n" % ";\n".join(terms))
+    rc, out = ctx.coq_eval('k_c03_nest', body, NEST_IMPORTS, timeout=300)
+    lists = re.findall(r"=\s*\[(.*?)\]\s*:\s*list", out, re.S) if rc == 0 else []
+    if len(lists) != 2:
+        ctx.log("nested-document model evaluation failed:\n" + out[-1500:])
+        return False
+    bad_model = [int(re.sub(r"%\w+", "", x).strip()) for x in lists[0].split(';') if x.strip()]
+    bad_bound = [int(re.sub(r"%\w+", "", x).strip()) for x in lists[1].split(';') if x.strip()]
+    for b in bad_bound[:3]:
+        n, replay = idx[b]
+        ctx.violation("nested documents are loaded deeper than one level / more than once per reference "
+                      "(C03_nested_documents_bounded; %s): %s" % (fam[n][0], replay['result'].get('nest')), replay)
+    for b in [x for x in bad_model if x not in bad_bound][:3]:
+        n, replay = idx[b]
+        ctx.violation("nested documents: model and implementation disagree on the loaded trees (%s): %s" % (fam[n][0], replay['result'].get('nest')), replay)
+    return True
 
 
 def use_family():
@@ -324,6 +437,16 @@ def use_family():
     doc("acyclic chain", [E('g', 'a', kids=[E('use').add('href', 'b')]), E('g', 'b', kids=[E('use').add('href', 'c')]),
                           E('g', 'c', kids=[E('path')])])
     doc("diamond", [E('g', 'a', kids=[E('use').add('href', 'c'), E('use').add('href', 'c')]), E('g', 'c', kids=[E('path')])])
+    # frame clause of the pre-pass (extension round 4): references that look like a loop to a careless scan but are not on a
+    # cycle through a clipPath / mask / filter: a container that is referenced from inside itself, acyclic chains with a user
+    for attr, tag in (('clip-path', 'clipPath'), ('mask', 'mask'), ('filter', 'filter')):
+        doc("frame %s: g referenced from inside" % attr, [E('g', 'a', kids=[E('path').add(attr, 'a'), E('path')])])
+        if tag != 'filter':
+            doc("frame %s: acyclic chain with users" % attr,
+                [E(tag, 'c1', kids=[E('path')]).add(attr, 'c2'), E(tag, 'c2', kids=[E('path')]),
+                 E('path').add(attr, 'c1'), E('g', kids=[E('path').add(attr, 'c2')])])
+            doc("frame %s: g <-> definition" % attr,
+                [E('g', 'a', kids=[E('path').add(attr, 'c1')]), E(tag, 'c1', kids=[E('path').add(attr, 'a')])])
     return out
 
 
@@ -338,7 +461,7 @@ def replay(ctx, path):
     if binp is None:
         print("harness does not build")
         return 1
-    for op in ('c03-e2e', 'c03-svgtree'):
+    for op in (('c03-nest',) if rp.get('op') == 'c03-nest' else ('c03-e2e', 'c03-svgtree')):
         o = ctx.rvh_batch(binp, op, ["-\t" + doc], per_item_timeout=10)
         print("%s -> %s" % (op, str(o[0])[:2000]))
     return 0
